@@ -937,7 +937,9 @@ func (s *Sim) build(a *Action, bs *BState) world.Req {
 		rq.Hdr = map[string]string{}
 		for _, kv := range strings.Split(h, "|") {
 			if i := strings.Index(kv, ": "); i > 0 {
-				rq.Hdr[kv[:i]] = kv[i+2:]
+				// {secret}: the secret this request submits, as a link carries it (the page the form was
+				// loaded from is what a browser names as Referer)
+				rq.Hdr[kv[:i]] = strings.ReplaceAll(strings.ReplaceAll(kv[i+2:], "{secret}", url.QueryEscape(a.Secret)), "{mount}", s.Cfg.Mount)
 			}
 		}
 	}
@@ -1173,6 +1175,12 @@ func (s *Sim) fillCode(a *Action, bs *BState, f map[string]string, kind string) 
 			} else {
 				a.Resolved, a.Secret = "wrong", "000000"
 			}
+		}
+	case "numcode": // the number the latest text went to followed by its code, in one string (no SMS code of
+		// anybody looks like that; a check that glues number and code together before comparing is fooled)
+		a.Resolved, a.Secret = "wrong", "000008"
+		if n := len(s.W.SMSs); n > 0 {
+			a.Resolved, a.Secret = "numcode", s.W.SMSs[n-1].Number+s.W.SMSs[n-1].Text
 		}
 	case "lastsms": // the most recent code delivered to ANY phone the attacker can read
 		if n := len(s.W.SMSs); n > 0 {
